@@ -48,10 +48,9 @@ def check_programs(ctx, progs, dirname, backends=progrun.BACKENDS, prop="c01"):
                 continue
             text = progrun.compile_error_text(r)
             import re
+            sig = progrun.crash_signature(text)
             lines = [l for l in text.splitlines() if l.strip()]
-            first = next((l for l in lines if l.startswith("fatal error:") or "panicked at" in l or l.startswith("error:")), lines[0] if lines else "")[:160]
-            frames = [l.strip().split(" ")[0] for l in lines if l.startswith("    ") and "(" in l][:3] if first.startswith("fatal error") else []
-            first = first + ("@" + ">".join(frames) if frames else "")
+            first = sig or next((l for l in lines if l.startswith("error")), lines[0] if lines else "")[:160]
             ctx.violation("%s:compile-rejected:%s:%s" % (prop, key[0], re.sub(r"\d+", "N", first)),
                           "well-typed generated program rejected / compiler failed (%s, features %s):\n%s" % (key[0], p.features, text[-1500:]),
                           files={"program.dora": p.source()})
